@@ -823,8 +823,95 @@ def _suppress_to_try(stmts: List[ast.stmt]) -> int:
     return n
 
 
+def _match_to_if(tree: ast.Module) -> int:
+    """`match subj:` over literal / dotted-name / singleton patterns (with `|`, guards, a final wildcard or capture)
+    ->  the equivalent if / elif chain (`subj == V`, `subj is None`).  Structural patterns are left alone."""
+    n = 0
+    tmp = [0]
+
+    def cond(p, subj):
+        if isinstance(p, ast.MatchValue):
+            return ast.Compare(left=copy.deepcopy(subj), ops=[ast.Eq()], comparators=[copy.deepcopy(p.value)])
+        if isinstance(p, ast.MatchSingleton):
+            return ast.Compare(left=copy.deepcopy(subj), ops=[ast.Is()], comparators=[ast.Constant(value=p.value)])
+        if isinstance(p, ast.MatchOr):
+            parts = [cond(q, subj) for q in p.patterns]
+            if any(x is None for x in parts):
+                return None
+            return ast.BoolOp(op=ast.Or(), values=parts)
+        return None
+
+    def convert(m: ast.Match):
+        pre = []
+        subj = m.subject
+        if not (isinstance(subj, ast.Name) or (isinstance(subj, ast.Attribute) and _attr_chain_root(subj) is not None)):
+            tmp[0] += 1
+            nm = f"_sv_subj{tmp[0]}"
+            pre.append(ast.Assign(targets=[ast.Name(id=nm, ctx=ast.Store())], value=subj, type_comment=None))
+            subj = ast.Name(id=nm, ctx=ast.Load())
+        arms = []  # (test | None, body)
+        for i, c in enumerate(m.cases):
+            p = c.pattern
+            if isinstance(p, ast.MatchAs) and p.pattern is None:
+                body = list(c.body)
+                if p.name is not None:
+                    body = [ast.Assign(targets=[ast.Name(id=p.name, ctx=ast.Store())], value=copy.deepcopy(subj), type_comment=None)] + body
+                if c.guard is not None:
+                    if p.name is not None:
+                        return None  # the guard may read the capture
+                    arms.append((c.guard, body))
+                    continue
+                if i != len(m.cases) - 1:
+                    return None
+                arms.append((None, body))
+                continue
+            t = cond(p, subj)
+            if t is None:
+                return None
+            if c.guard is not None:
+                t = ast.BoolOp(op=ast.And(), values=[t, c.guard])
+            arms.append((t, list(c.body)))
+        if not arms:
+            return None
+        node = None
+        for t, body in reversed(arms):
+            if t is None:
+                node = body
+            else:
+                node = [ast.If(test=t, body=body, orelse=node or [])]
+        out = pre + (node or [])
+        for x in out:
+            ast.copy_location(x, m)
+            ast.fix_missing_locations(x)
+        return out
+
+    for parent in ast.walk(tree):
+        lists = [getattr(parent, f, None) for f in ("body", "orelse", "finalbody")]
+        if isinstance(parent, ast.Match):
+            lists = [c.body for c in parent.cases]
+        for lst in lists:
+            if not (isinstance(lst, list) and lst and isinstance(lst[0], ast.stmt)):
+                continue
+            i = 0
+            while i < len(lst):
+                if isinstance(lst[i], ast.Match):
+                    rep = convert(lst[i])
+                    if rep is not None:
+                        lst[i:i + 1] = rep
+                        n += 1
+                        continue  # re-examine (nested matches inside the new ifs are reached by the walk)
+                i += 1
+    return n
+
+
 def desugar(tree: ast.Module) -> int:
-    total = unroll_any_all(tree)
+    total = 0
+    for _ in range(3):
+        k = _match_to_if(tree)
+        total += k
+        if not k:
+            break
+    total += unroll_any_all(tree)
     for fn in ast.walk(tree):
         if isinstance(fn, (ast.FunctionDef, ast.AsyncFunctionDef)):
             total += _hoist_walrus_in_list(fn.body)
